@@ -1,7 +1,7 @@
 //! C13 — the issuer refuses claim sets that use the reserved names `_sd` or `...`.
 //! Must-reject for every planted position, must-accept for the control and for near-misses.
 
-use crate::api::{self, Outcome};
+use crate::api::{self, Outcome, Resolver};
 use crate::evidence::{run_cases, Ctx, Local, Report, Violation};
 use crate::gen::{self, GenCfg, StratKind, PROFILES};
 use crate::keys::{Alg, ALL_ALGS};
@@ -262,8 +262,23 @@ fn one_case(ctx: &Ctx, case: u64, l: &mut Local) {
         }
     }
     // near-misses at a few random sites: must be issued
-    let near_names = ["_sdx", "_sd ", "....", "..", "_SD", "_sd_", ". . .", " _sd", "…"];
-    for nm in near_names {
+    let mut near_names: Vec<String> = ["_sdx", "_sd ", "....", "..", "_SD", "_sd_", ". . .", " _sd", "…"].iter().map(|s| s.to_string()).collect();
+    // ... and, systematically, a reserved name with ONE extra character in front, behind or inside: blanks of
+    // all kinds, invisible format characters, combining marks, a NUL, a look-alike letter
+    {
+        const EXTRA: [char; 26] = [' ', '\t', '\n', '\r', '\u{0}', '\u{a0}', '\u{ad}', '\u{200b}', '\u{200c}', '\u{200d}', '\u{2060}', '\u{feff}', '\u{2028}', '\u{3000}', '\u{301}', '\u{fe0f}', '\u{202e}', '\u{180e}', '\u{7f}', '\u{85}', '\u{1680}', '\u{2009}', '\u{e0001}', '\u{ff3f}', '\u{455}', '\u{2024}'];
+        for _ in 0..6 {
+            let base = *r.pick(&["_sd", "..."]);
+            let c = *r.pick(&EXTRA);
+            let at = match r.below(3) {
+                0 => 0,
+                1 => base.len(),
+                _ => 1 + r.usize(base.len() - 1),
+            };
+            near_names.push(format!("{}{}{}", &base[..at], c, &base[at..]));
+        }
+    }
+    for nm in near_names.iter().map(|s| s.as_str()) {
         let t = r.usize(sites);
         let mut pos = String::new();
         let planted = plant(&u, t, &mut 0, 0, false, nm, &json!("x"), false, &mut pos);
@@ -279,7 +294,29 @@ fn one_case(ctx: &Ctx, case: u64, l: &mut Local) {
         let fmt = *r.pick(&[Fmt::Compact, Fmt::Json]);
         l.evals += 1;
         match api::issue(&mut issuer, &planted, st, None, false, fmt) {
-            Outcome::Ok(_) => l.count("near-miss.issued"),
+            Outcome::Ok(sd) => {
+                l.count("near-miss.issued");
+                // ... and issued AS GIVEN: everything selected, the verified claims are the claims that went in
+                // (a name "repaired" on the way out would turn the near miss into the reserved name)
+                let back = match api::holder_new(&sd, fmt) {
+                    Outcome::Ok(mut h) => match api::present(&mut h, &gen::select_all(&planted), None) {
+                        Outcome::Ok(p) => api::verify(&p, &Resolver::Fixed(alg, 0), None, fmt).out,
+                        o => o.map(|_| Value::Null),
+                    },
+                    o => o.map(|_| Value::Null),
+                };
+                l.evals += 1;
+                match back {
+                    Outcome::Ok(v) if v == planted => l.count("near-miss.round-trip"),
+                    other => l.violate(Violation {
+                        subcheck: "near-miss-not-issued-as-given".into(),
+                        class: format!("name {nm:?}"),
+                        observed: if other.is_ok() { "verified claims differ from the claims given".into() } else { other.panic_signature().unwrap_or_else(|| other.describe()) },
+                        case,
+                        detail: json!({"claims": planted, "strategy": st.describe(), "format": fmt.name(), "got": other.as_ok()}),
+                    }),
+                }
+            }
             other => l.violate(Violation {
                 subcheck: "near-miss-refused".into(),
                 class: format!("name {nm:?}"),
